@@ -519,7 +519,11 @@ func cmdCheck(id, tier string) int {
 				reported["u"+key] = true
 				b, _ := json.Marshal(c.V.Inputs)
 				nb, _ := json.Marshal(c.Native)
-				addInc(fmt.Sprintf("counterexample did not reproduce natively (engine or stub defect): %s msg=%q inputs=%s native=%s", c.It, c.V.Msg, b, nb))
+				if strings.HasPrefix(c.V.Msg, "frame[") {
+					addInc(fmt.Sprintf("frame monitor: a store to state that outlives the request was found symbolically but the native fingerprint did not change: %s %s inputs=%s", c.It, c.V.Msg, b))
+				} else {
+					addInc(fmt.Sprintf("counterexample did not reproduce natively (engine or stub defect): %s msg=%q inputs=%s native=%s", c.It, c.V.Msg, b, nb))
+				}
 			}
 			continue
 		}
